@@ -149,14 +149,17 @@ fn c11_rp64_merge_with_int_injective() {
     let x: u64 = kani::any();
     let y: u64 = kani::any();
     reset();
-    let _ = H::merge_with_int(seed, x);
+    let dx = H::merge_with_int(seed, x);
     let (lx, nx) = snapshot();
     reset();
-    let _ = H::merge_with_int(seed, y);
+    let dy = H::merge_with_int(seed, y);
     let (ly, ny) = snapshot();
-    assert!(nx == 1 && ny == 1);
+    // under Kani the recorder stub has run exactly once per call; in a NATIVE replay stubs are not applied (nx == 0) and the real
+    // permutation ran: then the real digests are compared instead (a collision of real digests for x != y is the violation itself)
+    assert!((nx == 1 && ny == 1) || (nx == 0 && ny == 0));
     let mut same = true;
     let mut k = 0; while k < 12 { if lx[0][k] != ly[0][k] { same = false; } k += 1; }
+    if nx == 0 { same = dx == dy; }
     if same { assert!(x == y); }
     kani::cover!(same);
     kani::cover!(x >= M64 && y < M64);
@@ -176,15 +179,16 @@ fn c11_rpjive_merge_with_int_injective() {
     let x: u64 = kani::any();
     let y: u64 = kani::any();
     reset();
-    let _ = H::merge_with_int(seed, x);
+    let dx = H::merge_with_int(seed, x);
     let (lx, nx) = snapshot();
     reset();
-    let _ = H::merge_with_int(seed, y);
+    let dy = H::merge_with_int(seed, y);
     let (ly, ny) = snapshot();
     assert!(nx == ny);
     let mut same = true;
     let mut r = 0;
     while r < ROWS { let mut k = 0; while k < 12 { if lx[r][k] != ly[r][k] { same = false; } k += 1; } r += 1; }
+    if nx == 0 { same = dx == dy; }   // native replay (no stubs): compare the real digests
     if same { assert!(x == y); }
     kani::cover!(same);
 }
@@ -201,6 +205,54 @@ fn c11_vacuity_twin() {
     let _ = Rp64_256::hash(&a);
     let (l, n) = snapshot();
     if n == 1 && l[0][4] != 0 { assert!(false); }
+}
+
+
+// ---- Rp62_248::merge_with_int: injective in the integer over all 2^64 values (quotient value / M ranges over 0..=4 for the 62-bit field)
+const M62: u64 = 4611624995532046337;
+use math::fields::f62::BaseElement as F62;
+/// identity embedding of v mod M (see `new_stub`); f62::BaseElement is a single-u64 tuple struct
+fn new62_stub(v: u64) -> F62 {
+    let mut r = v;
+    let mut i = 0;
+    while i < 4 { if r >= M62 { r -= M62; } i += 1; }
+    unsafe { core::mem::transmute::<u64, F62>(r) }
+}
+fn perm62_rec_stub(state: &mut [F62; 12]) {
+    unsafe {
+        let p = core::ptr::addr_of_mut!(LOG);
+        let n = NLOG;
+        if n < ROWS { let mut i = 0; while i < 12 { (*p)[n][i] = core::mem::transmute::<F62, u64>(state[i]); i += 1; } }
+        NLOG = n + 1;
+    }
+}
+// @ob id=C11 also=C19 tier=quick req=1 to=900 funcs="Rp62_248::merge_with_int" bounds="one seed digest, two 64-bit integers (quotients by the 62-bit modulus 0..=4)" sym="seed elements, both integers (full 64 bits)" desc="merge_with_int is injective in the integer: different integers present different sponge states"
+#[kani::proof]
+#[kani::unwind(14)]
+#[kani::stub(alloc::fmt::format, nofmt)]
+#[kani::stub(winter_crypto::hash::rescue::rp62_248::apply_permutation, perm62_rec_stub)]
+#[kani::stub(F62::new, new62_stub)]
+fn c11_rp62_merge_with_int_injective() {
+    use crypto::hashers::Rp62_248 as H;
+    assert!(M62 == <F62 as math::StarkField>::MODULUS);
+    let mut e = [F62::ZERO; 4];
+    let mut i = 0; while i < 4 { let v: u64 = kani::any(); kani::assume(v < M62); e[i] = unsafe { core::mem::transmute::<u64, F62>(v) }; i += 1; }
+    let seed = <H as Hasher>::Digest::new(e);
+    let x: u64 = kani::any();
+    let y: u64 = kani::any();
+    reset();
+    let dx = H::merge_with_int(seed, x);
+    let (lx, nx) = snapshot();
+    reset();
+    let dy = H::merge_with_int(seed, y);
+    let (ly, ny) = snapshot();
+    assert!((nx == 1 && ny == 1) || (nx == 0 && ny == 0));
+    let mut same = true;
+    let mut k = 0; while k < 12 { if lx[0][k] != ly[0][k] { same = false; } k += 1; }
+    if nx == 0 { same = dx == dy; }   // native replay (no stubs): compare the real digests
+    if same { assert!(x == y); }
+    kani::cover!(same);
+    kani::cover!(x >= 3 * M62 && y < M62);
 }
 
 // ---- Rp62_248 (62-bit field): totality of byte hashing (permutation stubbed by a counter; f62 `new` real)
